@@ -103,6 +103,22 @@ Proof.
   destruct (N.eq_dec i c) as [->|Hne]; [rewrite upd_eq, Hcn; reflexivity|rewrite upd_neq by exact Hne; reflexivity].
 Qed.
 
+(* a name that is free in the destination's index is kept: make_unique_item_name returns it and changes nothing
+   (in particular in a fresh model, whose index is empty) *)
+Lemma make_unique_free i m pp w n orig x :
+  w_nodes w i = Some n -> item_name T n w = Val (OK (Some orig), w) ->
+  nth_opt (w_models w) (N.to_nat m) = Some x -> assoc_get (pp ++ [47] ++ orig) (m_idents x) = None ->
+  make_unique_item_name T i m pp w = Val (OK orig, w).
+Proof.
+  intros Hn Hit Hx Hfree. unfold make_unique_item_name.
+  assert (Hgm : get_model m w = Val (OK x, w)) by (unfold get_model; rewrite Hx; reflexivity).
+  erewrite wbind_val by (apply get_node_val; exact Hn). cbv beta. erewrite wbind_val by exact Hit. cbv beta iota.
+  erewrite wbind_val by exact Hgm. cbv beta. cbn [unique_loop].
+  assert (Hge : get_element_by_path m (pp ++ [47] ++ orig) w = Val (OK None, w)).
+  { unfold get_element_by_path. erewrite wbind_val by exact Hgm. unfold wret. rewrite Hfree. reflexivity. }
+  erewrite wbind_val; [|erewrite wbind_val by exact Hge; reflexivity]. cbn. reflexivity.
+Qed.
+
 End Helpers.
 
 Lemma Sub_old w w4 root :
@@ -292,6 +308,26 @@ Proof.
     destruct (proj2 Cw p pn o Hpn Hin) as (on' & Hon'). pose proof (proj1 Cw o on' Hon') as Holt.
     rewrite (proj1 HS04) in Hon by exact Holt. rewrite Hon' in Hon. injection Hon as <-.
     rewrite (Hunsplit p pn o on' HpS Hpn Hin Hon'). reflexivity.
+Qed.
+
+(* the same for the public call *)
+Theorem duplicate_text_top m w c w' x rn e ed :
+  Core w ->
+  m_duplicate T tab_el tab_en check_fn LATEST root_attrs m w = Val (OK c, w') ->
+  nth_opt (w_models w) (N.to_nat m) = Some x -> w_nodes w (m_root x) = Some rn ->
+  et_new T (autosar_element T) = Val (n_type rn) -> elem T (autosar_element T) = Val ed -> ed_name ed = n_name rn ->
+  n_content rn = [CElem e] ->
+  (forall en, w_nodes w e = Some en -> is_named T (n_type en) = Val false) ->
+  (forall v, (v = LATEST \/ exists f fl, nth_opt (w_files w') (N.to_nat f) = Some fl /\ f_version fl = v) -> AllValidIn T v w e) ->
+  (forall p pn o on, Sub w (m_root x) p -> w_nodes w p = Some pn -> In (CElem o) (n_content pn) -> w_nodes w o = Some on ->
+     n_files on = []) ->
+  forall f nf fuel indent inline,
+    ser_heap T tab_el tab_at tab_en float_fmt fuel w' (Some f) (m_root x) indent inline =
+    ser_heap T tab_el tab_at tab_en float_fmt fuel w' (Some nf) (w_next w) indent inline.
+Proof.
+  intros C H. unfold m_duplicate in H.
+  destruct (m_duplicate_body T LATEST root_attrs m w) as [[[c0|e0] w1]| |] eqn:Eb; try discriminate H.
+  injection H as <- <-. eapply duplicate_text; eauto.
 Qed.
 
 End All.
